@@ -108,6 +108,9 @@ func TestC37(t *testing.T) {
 		if rapid.IntRange(0, 3).Draw(rt, "conflictLifecyclePreamble") == 0 {
 			w.ConflictLifecycle(rt)
 		}
+		if rapid.IntRange(0, 3).Draw(rt, "iprpcMonthPreamble") == 0 {
+			iprpcMonth(rt, w)
+		}
 		slashedVault := rapid.IntRange(0, 3).Draw(rt, "slashedVaultPreamble") == 0
 		if slashedVault {
 			c37SlashedVault(rt, w)
